@@ -256,6 +256,9 @@ def gen_cases(rec, rng, tier):
         for _ in range(3):
             RT2 = random_tm(rng, rng.randint(2, 4), rng.randint(0, 2), 2, rng.choice(['_', '□']), p_def=rng.choice([0.8, 1.0]))
             yield {'kind': 'tm', 'cls': 'random_tm', 'ref': RT2, 'ns': [0, 2, 3, 4], 'max_steps': rng.choice([5, 50, 1000])}
+    for _ in range(120 if thorough else 40):
+        RG = rng.choice([cfgg.random_cnf(rng, rng.randint(2, 6), rng.randint(2, 9), nt=rng.randint(1, 2)), cfgg.redundant_cnf(rng)])
+        yield {'kind': 'cfg', 'cls': 'cnf_larger_bounds', 'ref': RG, 'ns': [3, 4, 5, 6] if len(RG[1]) <= 2 else [3, 4]}
     if rec.shard % 4 == 1:
         # zig-zag machines: look at the far end, come back, decide in the middle (palindromes; equal ends)
         Q = ['s', 'ra', 'rb', 'ca', 'cb', 'back', 'qa', 'qr']
